@@ -66,9 +66,40 @@ let () =
         let finb = if fin = "-" then [] else zlist_of_hex fin in
         let (st, evs) = tool_run (fun s d -> (s, d)) (fun _ -> finb) (z_of_int (int_of_string chunk)) () orc in
         print_endline (string_of_status st ^ " " ^ String.concat "" (List.map (string_of_event true) evs))
+      | ("ROE" | "ROT") as which :: amount :: rest ->
+        let _, outs = split_bar rest [] in
+        let f = if which = "ROE" then readOrEOF else readOrThrow in
+        let ((r, evs), _) = f Z0 (z_of_int (int_of_string amount)) (List.map outcome_of_token outs) in
+        let st, tail = (match r with
+            | Val d -> ("exit:0", " R:" ^ hex_of_zlist d)
+            | Exn -> ("sig:" ^ string_of_z sIGABRT, "")
+            | Abort -> ("sig:" ^ string_of_z sIGABRT, "")
+            | Fuel -> ("fuel", "")) in
+        print_endline (st ^ " " ^ String.concat "" (List.map (string_of_event true) evs) ^ tail)
       | "S" :: catches :: rest ->
         let acts, outs = split_bar rest [] in
         let (st, evs) = script_run (catches = "1") (List.map act_of_token acts) (List.map outcome_of_token outs) in
+        print_endline (string_of_status st ^ " " ^ String.concat "" (List.map (string_of_event false) evs))
+      | "WR" :: wr :: fd :: sent :: recs :: needs :: lines :: term :: rest ->
+        (* WR <wrapper> <child stdin fd> <bytes fed> <bytes of output> <needs> <child lines> <term> | feeder outcomes | collector outcomes *)
+        let _, r1 = split_bar rest [] in
+        let fo, co = split_bar r1 [] in
+        let w = (match wr with "cache" -> Cache | "foldfilter" -> Foldfilter | "b64filter" -> B64filter | _ -> failwith "bad wrapper") in
+        let nl = if needs = "-" then [] else List.map (fun x -> nat_of_int (int_of_string x)) (String.split_on_char ',' needs) in
+        let piece n = if int_of_string n = 0 then [] else [zeros (int_of_string n)] in
+        let ((st, evf), evc) = wrapper_io_run w (z_of_int (int_of_string fd)) (piece sent) (piece recs) nl (nat_of_int (int_of_string lines)) (term_of term)
+            (List.map outcome_of_token fo) (List.map outcome_of_token co) in
+        print_endline (string_of_status st ^ " " ^ String.concat "" (List.map (string_of_event false) evf) ^ " | " ^ String.concat "" (List.map (string_of_event false) evc))
+      | "L" :: words :: fd :: rest ->
+        (* L <number of command words> <status pipe fd> | outcomes *)
+        let _, outs = split_bar rest [] in
+        let (st, evs) = launch_status (nat_of_int (int_of_string words)) (z_of_int (int_of_string fd)) (List.map outcome_of_token outs) (Exited Z0) in
+        print_endline (string_of_status st ^ " " ^ String.concat "" (List.map (string_of_event false) evs))
+      | "F" :: fd :: lens :: rest ->
+        (* F <fd> <line lengths, comma or -> | outcomes : one shard output *)
+        let _, outs = split_bar rest [] in
+        let lines = if lens = "-" then [] else List.map (fun x -> zeros (int_of_string x)) (String.split_on_char ',' lens) in
+        let (st, evs) = threaded_file_run (z_of_int (int_of_string fd)) lines (List.map outcome_of_token outs) in
         print_endline (string_of_status st ^ " " ^ String.concat "" (List.map (string_of_event false) evs))
       | "I" :: tool :: rest ->
         (* I <tool> <seg lens early, comma or -> <seg lens late> | outcomes *)
